@@ -178,9 +178,12 @@ def seen_by_tool(header):
         from email.header import decode_header
         try:
             parts = decode_header(header)
-            return ''.join(p.decode(cs or 'latin-1') if isinstance(p, bytes) else p for p, cs in parts)
+            text = ''.join(p.decode(cs or 'latin-1') if isinstance(p, bytes) else p for p, cs in parts)
         except Exception:
             return None
+        if any(0xD800 <= ord(c) <= 0xDFFF for c in text):
+            return None     # a word that decodes to lone surrogates is refused before any tool runs (774570e)
+        return text
     if '=?' in header:
         return None         # mixed text: leave those to the oracle
     return header
@@ -841,10 +844,22 @@ def limit_stream(ctx, n):
     for _ in range(n):
         arrived = gen.pick(rng, sizes)
         body = ('a=' + 'x' * max(0, arrived - 2))[:arrived]
+        ctype = None
+        if rng.random() < 0.3 and arrived >= 80:
+            # the same sizes as one multipart field (read line by line: the limit is also checked on buffered bytes)
+            head = '--B\r\nContent-Disposition: form-data; name="a"\r\n\r\n'
+            tail = '\r\n--B--\r\n'
+            body = head + ('x' * 60 + '\r\n') * ((arrived - len(head) - len(tail)) // 62)
+            body = body + 'y' * (arrived - len(body) - len(tail)) + tail
+            ctype = 'multipart/form-data; boundary=B'
         kind = gen.pick(rng, ['plain', 'plain', 'known', 'chunked'])
         declared = None if kind == 'chunked' else gen.pick(rng, [arrived, arrived, arrived + 5, max(0, arrived - 1), 1000, 1001, 0])
         req = gen._base('limit-e2e', gen.pick(rng, ['POST', 'PUT']), gen.pick(rng, ['/limit', '/d/limit']), gen.pick(rng, gen.PROTOS), [])
         req['headers'] = [h for h in req['headers'] if h[0] != 'Content-Length']
+        if ctype:
+            req['headers'] = [h for h in req['headers'] if h[0] != 'Content-Type'] + [['Content-Type', ctype]]
+            if declared is not None and declared < arrived:
+                declared = arrived          # (a multipart body cut short is a 400 of its own)
         if kind == 'chunked':
             req['headers'].append(['Transfer-Encoding', 'chunked'])
             req['rfile'] = 'chunked'
